@@ -34,17 +34,14 @@ def run(ctx):
     c01.p1(ctx, R)
     c01.p2(ctx, R)
     c01.p5_p9(ctx, R)
-    c01.g4(ctx, R)
+    from .geval import with_g11
+    with_g11(ctx, R, [c01.g4, g7, g8, g9, c01.g6], aspects=("verdict", "stored", "complete"))
     c01.p13(ctx, R)
     c01.p14(ctx, R)
     c01.p15(ctx, R)
     p10(ctx, R)
     p11(ctx, R)
-    g7(ctx, R)
-    g8(ctx, R)
-    g9(ctx, R)
-    # a tag written in another letter case is the same tag: what is recorded for it (its parameter) must not depend on the spelling
-    c01.g6(ctx, R)
+    # (G6: a tag written in another letter case is the same tag: what is recorded for it (its parameter) must not depend on the spelling)
     t3p(ctx, R)
     # the tree of THIS parse only: every parser attribute a handler writes (incl. result) is re-initialised per parse (rule H2 of C13)
     from .c13 import h2
@@ -410,6 +407,16 @@ def t3p(ctx, R):
             continue
         n += 1
         ok = True
+        from .geval import reassign_eval
+        rev = reassign_eval(ctx, R).get(c.name)
+        if rev is not None and rev[0] == "bad":
+            ok = False
+            ctx.violation("T3'", f, "model:reassign", rev[1], node=f.node, witness="an argument written in the source is missing from the tree, or "
+                          "sits in a slot it was not written for")
+        elif rev is not None:
+            ctx.holds("T3'", "%s: %d argument sequences (0..n positional values, with and without tags) keep every written value, in the slot "
+                      "it was meant for" % (f.qualname, rev[1]))
+        _prev = ctx.demote(["T3'"], "the evaluation of reassign_arguments (T3')", keep_keys=("model:",)) if rev is not None and rev[0] == "ok" else None
         for st in walk_no_nested(f.node):
             if isinstance(st, ast.Assign) and any(isinstance(t, ast.Subscript) and "arguments" in norm(t.value) for t in st.targets):
                 v = st.value
@@ -461,6 +468,8 @@ def t3p(ctx, R):
                 if not all(cfg.guarded(x, dest_empty) for x in cfg.nodes_for(st)):
                     ok = False
                     ctx.violation("T3'", f, "reassign-overwrites", "%s may overwrite slot %r" % (f.qualname, key), node=st)
+        if _prev is not None:
+            ctx.restore(_prev)
         if ok:
             ctx.holds("T3'", "%s only moves values into empty slots" % f.qualname)
     ctx.need("T3'", "reassign_arguments overrides", n, 1)
